@@ -27,9 +27,16 @@ func loGetPath(env string, defpath string) string {
 	return path
 }
 
+// packageTable returns the table of the package library. It is found through the registry's _LOADED
+// table, not through the global variable "package", which a script is free to use for something else
+// (the reference implementation keeps the table in the environment of the package functions).
+func packageTable(L *LState) LValue {
+	return L.GetField(L.GetField(L.Get(RegistryIndex), "_LOADED"), LoadLibName)
+}
+
 func loFindFile(L *LState, name, pname string) (string, string) {
 	name = strings.Replace(name, ".", string(os.PathSeparator), -1)
-	lv := L.GetField(L.GetField(L.Get(EnvironIndex), "package"), pname)
+	lv := L.GetField(packageTable(L), pname)
 	path, ok := lv.(LString)
 	if !ok {
 		L.RaiseError("package.%s must be a string", pname)
@@ -80,7 +87,7 @@ var loFuncs = map[string]LGFunction{
 
 func loLoaderPreload(L *LState) int {
 	name := L.CheckString(1)
-	preload := L.GetField(L.GetField(L.Get(EnvironIndex), "package"), "preload")
+	preload := L.GetField(packageTable(L), "preload")
 	if _, ok := preload.(*LTable); !ok {
 		L.RaiseError("package.preload must be a table")
 	}
